@@ -370,6 +370,13 @@ inj10 I s:start;y;s:gstop:15:0;M:stop;a:20
 
 JOB_ALPHABET = ["start", "stop", "gstop:15:20", "restart", "grestart:15:20", "tryrestart", "gtryrestart:15:20", "signal:10", "towait", "delete", "deletenow", "run:1", "seterr", "continue"]
 
+JOB_ASYNC = [
+    "as1 E30,I s:runasync:1;s:start;s:runasync:2;y;s:seterrasync;s:sethookasync;a:50;s:start;y;s:runasync:3;y",
+    "as2 F,I s:seterrasync;s:start;y;s:sethook;s:start;y;s:unseterr;s:tryrestart;y",
+    "as3 I s:sethookasync;s:start;s:runasync:4;s:deletenow;s:runasync:5;y",
+    "as4 F,F,I s:seterrasync;s:restart;s:runasync:6;y;s:seterr;s:start;y;s:start;a:10",
+    "as5 S20,I s:start;y;s:sethookasync;s:gtryrestart:15:50;s:runasync:7;a:30;s:runasync:8;a:100",
+]
 JOB_CLONES = [
     "cl1 E30 s:start;y;s:towait;c:1;c:1;c:2;a:50",
     "cl2 I s:start;y;s:gstop:15:20;c:1;a:10;c:1;a:50;c:1",
@@ -383,7 +390,7 @@ JOB_CLONES = [
 
 def job_scripts(seed, n_random, exhaustive_len):
     r = random.Random(seed)
-    out = list(JOB_FIXED) + JOB_CLONES
+    out = list(JOB_FIXED) + JOB_CLONES + JOB_ASYNC
     # bounded-exhaustive: every sequence of `exhaustive_len` API calls over the public alphabet, burst and settled, x 3 behaviours
     def seqs(k):
         if k == 0: yield []; return
@@ -419,11 +426,12 @@ def job_scripts(seed, n_random, exhaustive_len):
         if k < 0.9: return "I"
         return "F"
     def api():
-        k = r.choice(["start", "start", "stop", "gstop", "restart", "grestart", "tryrestart", "gtryrestart", "signal", "towait", "towait", "delete", "deletenow", "run", "run", "seterr", "unseterr", "continue"])
+        k = r.choice(["start", "start", "stop", "gstop", "restart", "grestart", "tryrestart", "gtryrestart", "signal", "towait", "towait", "delete", "deletenow", "run", "run", "seterr", "unseterr", "continue",
+                      "runasync", "seterrasync", "sethook", "sethookasync"])
         g = r.choice([1, 2, 9, 10, 15, 15, 15, 0, 64]); ms = r.choice([0, 1, 5, 10, 20, 50, 100])
         if k in ("gstop", "grestart", "gtryrestart"): return f"{k}:{g}:{ms}"
         if k == "signal": return f"signal:{g}"
-        if k == "run": return f"run:{r.randrange(100)}"
+        if k in ("run", "runasync"): return f"{k}:{r.randrange(100)}"
         return k
     for i in range(n_random):
         behs = ",".join(beh() for _ in range(r.randint(1, 4)))
@@ -489,7 +497,7 @@ def job_oracles(script, trace):
         out.append(("C06", f"{nspawn} spawn attempts for {nspawnctl} controls that can spawn: a restart started more than once"))
         out.append(("C09", f"{nspawn} spawn attempts for {nspawnctl} controls that can spawn"))
     # C10: normal-priority run markers execute in send order
-    sent_runs = [o.split(":")[2] for o in ops if o[:2] in ("s:", "n:", "m:", "M:") and o.split(":")[1] == "run"]
+    sent_runs = [o.split(":")[2] for o in ops if o[:2] in ("s:", "n:", "m:", "M:") and o.split(":")[1] in ("run", "runasync")]
     ran = [e.split(":")[2] for e in ev if e.split(":")[1] == "run"]
     it = iter(sent_runs)
     if len(set(sent_runs)) == len(sent_runs) and not all(any(x == y for y in it) for x in ran):
@@ -503,7 +511,7 @@ def job_oracles(script, trace):
         if o[:2] == "c:": continue       # cloning a ticket does not yield to the job task
         if any(b.split(":")[1] == "deletenow" for b in burst):
             for b in burst:
-                if b.split(":")[1] == "run" and b.split(":")[2] in ran and sent_runs.count(b.split(":")[2]) == 1:
+                if b.split(":")[1] in ("run", "runasync") and b.split(":")[2] in ran and sent_runs.count(b.split(":")[2]) == 1:
                     out.append(("C10", f"normal control run:{b.split(':')[2]} executed although an urgent delete-now was pending with it (burst {burst})"))
         burst = []
     # C06: no kill before the grace period of some graceful control has elapsed, in scripts without forceful controls
@@ -967,13 +975,13 @@ def c15_fs(ctx):
 PLANS["C15"] = dict(
     modules=["Wx.Err.C15", "Wx.Fs.C13f"],
     theorems=["Fw.errors_once_per_attempt", "Fw.others_are_registered", "Eh.c15_conserved", "Eh.hook_end", "Eh.ended_stops", "Eh.inv_step", "Eh.inv_init"],
-    bins=[("lib", ["wxerr", "wxfs"])],
-    streams=lambda ctx: c15_streams(ctx) + c15_fs(ctx),
+    bins=[("lib", ["wxerr", "wxfs", "wxfsreal"])],
+    streams=lambda ctx: c15_streams(ctx) + c15_fs(ctx) + [fs_real_stream("C15", ctx)],
     sources=["crates/lib/src/watchexec.rs", "crates/lib/src/action/worker.rs", "crates/lib/src/sources/fs.rs", "crates/lib/src/error/runtime.rs", "crates/lib/src/error/critical.rs"],
     rule="a case is one fault script (channel capacity, handler behaviours, events with filter verdicts); non-trivial = at least two injected errors; distinct by (script, observation)",
     assumptions=["tokio bounded mpsc: senders wait in arrival order, nothing is dropped by send().await, try_send drops when no permit is free (modelled)",
                  "async-priority-channel is a heap: the order in which equal-priority events (and hence their filter errors) reach the handler is an input of the model"],
-    partial="real-time runs (each case 200 ms of wall clock); 'every error handled exactly once' is proved on the channel model and observed on the real instance; callback (try_send) errors are modelled but not injected into the real instance",
+    partial="real-time runs (each case 200 ms of wall clock); 'every error handled exactly once' is proved on the channel model and observed on the real instance; callback (try_send) errors are modelled, and provoked on the real instance by the fs-overflow stream (event queue of 2, slow handler, bursts of real file creations): every later operation must still be reported and the main task keeps running; that each overflow is reported AT MOST once is not decided by that stream (the number of events inotify emits is not known to it)",
 )
 
 # ------------------------------------------------------------------------------------------------
@@ -1055,7 +1063,9 @@ def worker_stream(pid, ctx):
     s = core.StreamResult("worker-rt")
     d = core.WORK / pid / "worker-rt"; d.mkdir(parents=True, exist_ok=True)
     cases = worker_cases(ctx["seed"], n)
-    lines = [f"{cid} {thr} {hm} " + ",".join([f"{t}:{i}:{p}:{k}:{v}" for (t, i, p, k, v) in a] + [(f"{c[0]}:F:{c[2]}" if len(c) == 3 else f"{c[0]}:T:{c[1]}") for c in ch]) for cid, thr, hm, a, ch in cases]
+    # every second generated case installs its handler with on_action_async (the handler's time is spent in an awaited future)
+    def is_async(cid): return cid[0] == "c" and cid[1:].isdigit() and int(cid[1:]) % 2 == 1
+    lines = [f"{cid} {thr} {'a' if is_async(cid) else ''}{hm} " + ",".join([f"{t}:{i}:{p}:{k}:{v}" for (t, i, p, k, v) in a] + [(f"{c[0]}:F:{c[2]}" if len(c) == 3 else f"{c[0]}:T:{c[1]}") for c in ch]) for cid, thr, hm, a, ch in cases]
     (d / "cases.txt").write_text("\n".join(lines) + "\n")
     def run_all(ls):
         p = subprocess.run([str(core.TARGET / "wxthrottle")], input="\n".join(ls) + "\n", capture_output=True, text=True, timeout=3000)
@@ -1083,6 +1093,7 @@ def worker_stream(pid, ctx):
         for tg, ids in got:
             if not any(a[2] == "u" for a in arr if a[1] in ids) and all(x in sent for x in ids):
                 if not changes: worst_late = max(worst_late, tg - (min(sent[x] for x in ids) + thr * 1000))
+        s.bump("async handler (on_action_async)" if is_async(cid) else "sync handler (on_action)")
         s.bump(f"throttle={thr}"); s.bump("error-burst, full error channel" if isinstance(hm, str) else "slow-handler" if hm else "instant-handler"); s.bump("rejected-event flood" if any(len(c) == 3 for c in changes) else "throttle-changes-at-run-time" if changes else "fixed-throttle"); s.bump(f"batches={min(len(got), 4)}")
         if len(got) >= 2: s.nontrivial.add(hashlib.md5((lines[i].split(" ", 1)[1] + canon).encode()).digest()[:8])
         if i % max(1, len(cases) // 3) == 0 and len(s.samples) < 3: s.samples.append({"case": lines[i], "impl": line[:300], "model": mo[:300]})
@@ -1109,9 +1120,10 @@ def worker_stream(pid, ctx):
 
 def fs_real_stream(pid, ctx):
     """real filesystem operations under the native and the poll watcher against a real Watchexec instance; judged by Fsrc.segOk"""
-    n = 220 if ctx["thorough"] else 48
+    only_overflow = pid == "C15"        # C15 runs the queue-overflow cases only
+    n = (60 if ctx["thorough"] else 12) if only_overflow else (220 if ctx["thorough"] else 48)
     r = random.Random(ctx["seed"] * 71 + 3)
-    s = core.StreamResult("fs-real")
+    s = core.StreamResult("fs-overflow" if only_overflow else "fs-real")
     d = core.WORK / pid / "fs-real"; d.mkdir(parents=True, exist_ok=True)
     cases = core.corpus("fs-real")
     for i in range(n):
@@ -1133,6 +1145,10 @@ def fs_real_stream(pid, ctx):
                 if nd not in dirs and nd.count("/") < 3: ops.append("mk:" + nd); dirs.add(nd)
             else: ops.append("rm:" + pre + "nosuch.txt")      # an operation that fails: nothing happens, nothing is owed
         if not ops: ops = ["c:z.txt"]
+        if i % 8 == 5 or only_overflow:
+            # C15 "errors raised from the watcher's own callback (event-queue overflow)": a queue of 2, a slow handler and a burst of
+            # creations — events are lost with one runtime error each, and Watchexec keeps processing what comes later
+            kind, mode = "N", "Q"; k = r.randrange(len(ops)); ops = ops[:k] + [f"burst:{r.choice([30, 50, 80])}"] + ops[k:]
         cases.append(f"fr{i} {kind} {mode} {';'.join(ops)}")
     def attempt(cs, k):
         impl, culprits, fatal = core.run_chunks("wxfsreal", cs, k, 400 if ctx["thorough"] else 200)
@@ -1172,9 +1188,10 @@ def fs_real_stream(pid, ctx):
         nd, na = f["n"].split("/")
         if not what and nd != na: what = f"the filter accepted {na} events but the action handler was handed {nd}: an accepted event was lost or handed over twice"
         if not what and f["empty"] != "0": what = f"the action handler was invoked with an empty batch {f['empty']} time(s)"
-        if pid == "C15" or not what:
-            ne, nh = f["err"].split("/")
-            if ne != nh and not what: what = f"the filter failed on {ne} events but the error handler saw {nh} runtime errors"
+        ne, nh = f["err"].split("/")
+        overflow = c.split(" ")[2] == "Q"
+        if overflow: s.bump("queue-overflow errors handled", int(nh) - int(ne))
+        if not what and (int(nh) < int(ne) if overflow else ne != nh): what = f"the filter failed on {ne} events but the error handler saw {nh} runtime errors"
         if not what and f.get("main") != "running": what = f"the main task ended ({f.get('main')}) while filesystem events were being processed"
         if what: s.oracle_failures.append((i, c, o, what))
         s.bump("watcher=" + c.split(" ")[1]); s.bump("mode=" + c.split(" ")[2])
